@@ -233,11 +233,40 @@ func (r *crashRun) event(name string, args ...any) {
 		}
 	case "commit.applied":
 		r.commitTs = 0
-	case "discard.low":
-		if low := args[0].(uint64); low > r.lastLow {
-			r.lastLow = low
-			r.log(fmt.Sprintf("ev raise %d", low), "~ok")
+	case "open.begin":
+		// Open lists the directory: the older wal files are replayed in the lexical order of their names
+		ents, _ := os.ReadDir(args[0].(string))
+		var names []string
+		for _, e := range ents {
+			if strings.HasSuffix(e.Name(), ".log") {
+				names = append(names, e.Name())
+			}
 		}
+		sort.Strings(names)
+		var ids []string
+		for _, n := range names {
+			ids = append(ids, strconv.Itoa(r.walID(n)))
+		}
+		o := "-"
+		if len(ids) > 0 {
+			o = strings.Join(ids, ",")
+		}
+		r.log("order "+o, "~ok")
+	case "discard.low":
+		// the bound this compaction discards with; logged with the plan below
+		r.lastLow = args[0].(uint64)
+	case "table.compact":
+		// which tables are merged into which: the program model (DiskProg) follows the compaction from here
+		var ins []string
+		for _, f := range args[1].([]string) {
+			ins = append(ins, strconv.Itoa(tableNum(f)))
+		}
+		insS := "-"
+		if len(ins) > 0 {
+			insS = strings.Join(ins, ",")
+		}
+		r.log(fmt.Sprintf("plan %s %d", insS, tableNum(args[0].(string))), "~ok")
+		r.log(fmt.Sprintf("ev raise %d", r.lastLow), "~ok")
 	}
 }
 
@@ -550,15 +579,30 @@ func crashExec(ops []string) (dops []string, res []string) {
 				}
 			}
 		}
-		// ---- nested crash: crash again inside this image's recovery ----
-		if nested > 0 && i%nested == 0 {
+		// ---- the recovery of this image as a trace of its own (every third image, and every nested one):
+		//      Open's file-system events continue the trace after a crash, through rule book and program model;
+		//      nested crash: crash again inside this image's recovery ----
+		isNested := nested > 0 && i%nested == 0
+		if isNested || i%3 == 1 {
 			os.RemoveAll(work)
 			copyDir(img.dir, work)
-			sub := &crashRun{root: filepath.Join(root, "nested"), dir: work, walIDs: map[string]int{}, lens: map[string]int64{}, synced: map[string]int64{}, takeImages: true, maxImages: 40}
+			ids := map[string]int{}
+			for k, v := range r.walIDs {
+				ids[k] = v
+			}
+			sub := &crashRun{root: filepath.Join(root, "nested"), dir: work, walIDs: ids, lens: map[string]int64{}, synced: map[string]int64{}, takeImages: isNested, maxImages: 40}
 			os.MkdirAll(sub.root, 0755)
 			vhook.Install(&vhook.Handlers{FS: sub.fs, FSDone: sub.fsDone, Event: sub.event})
 			_, _, _ = openAndRead(work, cfg, keys, nil)
 			vhook.Install(nil)
+			br := []string{"crash"}
+			for _, o := range sub.dops {
+				if strings.HasPrefix(o, "ev ") || strings.HasPrefix(o, "plan ") || strings.HasPrefix(o, "order ") {
+					br = append(br, o)
+				}
+			}
+			extraOps = append(extraOps, fmt.Sprintf("REC %d %s", img.line, strings.Join(br, "\n")))
+			extraRes = append(extraRes, "")
 			for j, img2 := range sub.images {
 				w2 := filepath.Join(root, "work2")
 				os.RemoveAll(w2)
@@ -580,16 +624,28 @@ func crashExec(ops []string) (dops []string, res []string) {
 	dops = append(dops, r.dops...)
 	res = append(res, r.res...)
 	for k, op := range extraOps {
-		if strings.HasPrefix(op, "CUT ") {
+		if strings.HasPrefix(op, "CUT ") || strings.HasPrefix(op, "REC ") {
 			p := strings.SplitN(op, " ", 3)
 			line, _ := strconv.Atoi(p[1])
 			dops = append(dops, "reset")
 			res = append(res, "ok")
 			for j := 1; j < line; j++ {
-				if strings.HasPrefix(r.dops[j], "ev ") {
+				if strings.HasPrefix(r.dops[j], "ev ") || strings.HasPrefix(r.dops[j], "plan ") || strings.HasPrefix(r.dops[j], "order ") {
 					dops = append(dops, r.dops[j])
 					res = append(res, "")
 				}
+			}
+			if strings.HasPrefix(op, "REC ") {
+				// the events of the recovery (Open … Close) on this crash image
+				for n, o := range strings.Split(p[2], "\n") {
+					dops = append(dops, o)
+					if n == 0 {
+						res = append(res, "ok")
+					} else {
+						res = append(res, "~ok")
+					}
+				}
+				continue
 			}
 			dops = append(dops, p[2])
 			res = append(res, extraRes[k])
@@ -618,10 +674,21 @@ func crashGen(r *rand.Rand, n int, thorough bool) []Case {
 			// Close while several immutable memtables are still queued: rotate on every commit, slow flusher, roomy queue
 			cfg = fmt.Sprintf("%d %d %d %d %d %d %d %d %d", 30+r.Intn(20), []int{1, 20, 200}[r.Intn(3)], 1+r.Intn(3), 1+r.Intn(2), 2+r.Intn(3), maxImg, nested, lossy, 3+r.Intn(5))
 		}
+		manyTables := c%3 == 2
+		if manyTables {
+			// more than ten tables in level 0 across restarts: every commit rotates, no compaction before 20 tables;
+			// the directory lists "0-10.db" before "0-2.db", table names must stay unique after recovery
+			closePending = false
+			cfg = fmt.Sprintf("%d %d %d %d %d %d %d %d %d", 30+r.Intn(10), []int{20, 200}[r.Intn(2)], 20, 2, 2, maxImg, nested, lossy, 0)
+		}
 		ops := []string{"open " + cfg}
 		nk := 3 + r.Intn(4)
 		nt := 14 + r.Intn(14)
 		tags := []string{"crash-points", "lossy-tails", "nested-crash"}
+		if manyTables {
+			nt = 24 + r.Intn(6)
+			tags = append(tags, "many-tables-across-restarts")
+		}
 		for i := 0; i < nt; i++ {
 			var kvs []string
 			cnt := 1 + r.Intn(4)
@@ -634,6 +701,12 @@ func crashGen(r *rand.Rand, n int, thorough bool) []Case {
 				}
 			}
 			ops = append(ops, "txn "+strings.Join(kvs, ","))
+			if manyTables {
+				if i == 12 || i == 17 || i == 21 {
+					ops = append(ops, "reopen")
+				}
+				continue
+			}
 			if closePending {
 				if i%5 == 4 {
 					ops = append(ops, "reopen")
